@@ -346,7 +346,14 @@ def _has_perm(shapes: list) -> bool:
         seen.setdefault(tuple(sorted(elems)), set()).add(elems)
     if any(len(v) >= 2 for v in seen.values()):
         return True
-    return False
+    # the same one level down: nested tuples at one result position (of any two returns) that are permutations of each other
+    per_pos: dict = {}
+    for sh, tags in shapes:
+        for i, x in enumerate(sh[1] if sh[0] == "tuple" else [sh]):
+            if x[0] == "tuple":
+                elems = tuple(ref.show(shape_canon(e)) for e in x[1])
+                per_pos.setdefault((i, tuple(sorted(elems))), set()).add(elems)
+    return any(len(v) >= 2 for v in per_pos.values())
 
 
 def raw_tuple_keys(body: list) -> list[tuple]:
